@@ -268,6 +268,12 @@ func batchDischarge(u *Unit, obls []*Obligation, dir string, perQueryMs int) {
 	sb.WriteString(u.smtHeader(len(u.cmds)))
 	fmt.Fprintf(&sb, "(set-option :timeout %d)\n", perQueryMs)
 	nf := 0
+	// vacuity guard: the entry assumptions (type invariants + requires) must not be contradictory
+	for nf < u.nFactsEntry && nf < len(u.facts) {
+		sb.WriteString("(assert " + u.facts[nf] + ")\n")
+		nf++
+	}
+	sb.WriteString("(push 1)\n(check-sat)\n(pop 1)\n")
 	for _, o := range obls {
 		for nf < o.NFacts {
 			sb.WriteString("(assert " + u.facts[nf] + ")\n")
@@ -307,6 +313,10 @@ func batchDischarge(u *Unit, obls []*Obligation, dir string, perQueryMs int) {
 				return
 			}
 		}
+	}
+	if len(answers) > 0 {
+		u.coverStatus = answers[0]
+		answers = answers[1:]
 	}
 	for i, o := range obls {
 		if i >= len(answers) {
